@@ -133,3 +133,24 @@ func Verif_C12_damping_scenarios() {
 	e.p.stop()
 	verifAssert("stop-does-not-damp", (e.p.startupDelay == 0) == !damp)
 }
+
+// A protocol error on one connection racing with the other connection's progress: the error must
+// still damp the peer (it may not get lost because the erring FSM is stopped while offering it).
+func Verif_C12_error_races_other_connection() {
+	verifNote("both connections up: the outbound one in OpenConfirm, the inbound one in OpenSent; the inbound connection receives an unexpected message (FSM error NOTIFICATION is sent) at the same time as the outbound one receives its KEEPALIVE (asks for Established): all orders in which the manager can take the two offers (select arms ready together) + 1 delay; afterwards the peer must be held down")
+	e := newPenv(false)
+	e.p.start()
+	co := e.bring(out, stOpenConfirm)
+	ci := e.bring(in, stOpenSent)
+	verifDelayBound(1)
+	ci.send(updateMessageType, []byte{0, 0, 0, 0}) // unexpected in OpenSent -> NOTIFICATION(5,1) sent
+	co.send(keepAliveMessageType, nil)
+	verifQuiesce()
+	sentProtocolError := len(ci.writes) >= 2 && verifAt(ci.writes[len(ci.writes)-1], 18) == notificationMessageType && verifAt(ci.writes[len(ci.writes)-1], 19) == NOTIF_CODE_FSM_ERR
+	if sentProtocolError {
+		verifAssertKnown("protocol-error-sent-damps-the-peer", e.p.inHoldDown, "C12-error-lost-when-fsm-stopped-while-offering-it", !e.p.inHoldDown && e.pl.nEstab == 1)
+		verifCover("error-raced")
+	}
+	verifCoverIf("race-error-first", e.p.inHoldDown)
+	e.p.stop()
+}
